@@ -186,7 +186,7 @@ func (w *ztWorld) checkResolvable(fail func(string)) {
 				fail(fmt.Sprintf("resolvable-incomplete: %s resolves but its layer %s is missing", name, l.Digest[:14]))
 				continue
 			}
-			if "sha256:"+h != l.Digest {
+			if "sha256:"+h != strings.Replace(l.Digest, "-", ":", 1) { // (either spelling of the digest names the same content)
 				fail(fmt.Sprintf("resolvable-corrupt: %s resolves but its layer %s has other content", name, l.Digest[:14]))
 			}
 		}
